@@ -8,7 +8,10 @@ RULE = ("random engines (1-3 exchanges with links healthy/closed(receiver droppe
         "the signed Decimal domain (0, negative, fractional, 1e-8, 1e12), client order ids 0 / 4999 / 5000.. / 8999 also in COMMANDS (commands bypass the risk manager: a cid the scripted risk manager "
         "would refuse is sent), exchange indices far beyond the link table, empty commands (OneOrMany::Many([])) and batches of 6-12 requests per command / strategy output, filters with several elements "
         "(OneOrMany::Many: duplicates, known + unknown exchange, out-of-range instrument, reversed / degenerate / unknown underlyings), order snapshots OpenInFlight / fully filled / over-filled / zero "
-        "quantity / negative or far-ahead exchange time, fills and prices with fractional / 1e-8 / 1e12 magnitudes and price 0 / negative, up to 6 instruments, every tenth case a history of 120-200 events")
+        "quantity / negative or far-ahead exchange time, fills and prices with fractional / 1e-8 / 1e12 magnitudes and price 0 / negative, up to 6 instruments, every tenth case a history of 120-200 events. "
+        "Plus a separately seeded configuration-shape family (one `cfg` case per five random ones; corpus/C03/cfg_shapes.ops holds fixed instances): 2-5 exchanges (the r / d families stop at three; with label 4 = Bitfinex "
+        "the harness label differs from the ExchangeIndex, the builder sorting by ExchangeId), exchanges / instruments ADDED in a permuted, interleaved order (never label order; IndexedInstruments::builder().build() "
+        "normalises it), link tables of 4-5 slots over all four letters, forced link shapes (only the last ExchangeIndex linked with `None` slots before it, only the first one missing, no usable link at all)")
 ASSUMPTIONS = [
     "PARTIAL (runtime): an unbounded tokio mpsc channel accepts a send iff its receiver is alive and delivers FIFO - assumption of the model, exercised (not proved) by the correspondence run",
     "links: besides healthy / receiver dropped / no transmitter, the generic MultiExchangeTxMap<Tx> is also instantiated with a transmitter that refuses every item with an error that is not is_unrecoverable() "
@@ -19,6 +22,11 @@ ASSUMPTIONS = [
     "(the engine model sets the position; increasing / flipping fills are C02's subject); the link table is fixed per case (a link that dies mid-history, or a transmitter that fails intermittently, cannot be "
     "expressed: per tick the theorems quantify over every link table, the correspondence run does not change it between ticks); client order ids and order ids are numerals, strategy id is fixed; inactive "
     "order snapshots are Cancelled only; client order ids 9000-9099 are reserved for the injected close-position id generator",
+    "set-up shapes of the shared engine protocol found by the configuration-shape audit and NOT generated (fixed by harness/src/engine_proto.rs / engine_util.rs, which this check may not change): every instrument is a SPOT "
+    "instrument (no perpetual / future / option in the engine state); every exchange of the link table has at least one instrument and every exchange with an instrument has a slot (a link table shorter or LONGER than the "
+    "exchange table, or ordered differently from the ExchangeIndex order, cannot be expressed: a request for an index beyond the exchange table always fails); the clock is HistoricalClock, the engine state starts without "
+    "balances / positions / orders (positions and orders are reached through events at the head of a third of the cases), the strategy / risk manager are the scripted ones (DefaultStrategy / DefaultRiskManager never sit in "
+    "the engine; C03R checks DefaultRiskManager on its own), audits are read from Engine::process directly (no run loop, no audit channel on / off: C10)",
     "cancel_orders iterates a hash map: the order of the cancel requests it generates within one instrument is canonicalised (sorted by client order id) on both sides",
     "examined boundary (DESIGN F8): when an algo send fails fatally the audit carries the errors but omits the AlgoOrders output although the healthy part was delivered and marked in flight; "
     "the property demands reported-sent => delivered, which holds (audit_algo_is_generated)",
